@@ -264,6 +264,87 @@ func (g *Gen) MatrixScript(t int) []func() *Op {
 			})
 		}
 	}
+	if tp.NewFilter != nil && hasRel {
+		// relation targets per call: Batch(rel...) on a filter object, then two queries of the same object open at
+		// once with different targets, stepped alternately (each must keep its own targets)
+		relC := relsOf(set).List()[0]
+		for _, cached := range []bool{false, true} {
+			cached := cached
+			var tA, tB EID
+			s = append(s, newEnt(0), newEnt(0), newBatch(0), func() *Op {
+				op := mk(KRegFilter)
+				op.SF = len(g.M.Filters)
+				op.F = &FSpec{Kind: FTyped, Tuple: t}
+				return op
+			}, func() *Op {
+				// two distinct targets in use for relC
+				tA, tB = ZeroE, ZeroE
+				seen := map[EID]bool{}
+				for _, e := range g.alive() {
+					st := &g.M.Ents[e]
+					if st.Mask.Contains(set) && !seen[st.Tgt[relC]] {
+						seen[st.Tgt[relC]] = true
+						if len(seen) == 1 {
+							tA = st.Tgt[relC]
+						} else {
+							tB = st.Tgt[relC]
+							break
+						}
+					}
+				}
+				if !cached {
+					op := mk(KUnregFilter)
+					op.SF = len(g.M.Filters) - 1
+					return op
+				}
+				return nil
+			}, func() *Op {
+				op := mk(KSetRelBatch)
+				op.Path, op.Tuple = PTMap, t
+				op.SF = len(g.M.Filters) - 1
+				op.Cached = cached
+				op.QRels = []RelT{{C: relC, T: tA}}
+				op.Rels = []RelT{{C: relC, T: tA}} // retarget to the same target: selects, changes nothing
+				op.BatchCb = true
+				return op
+			}, func() *Op {
+				op := mk(KOpenQuery)
+				op.Slot, op.SF, op.Cached = 0, len(g.M.Filters)-1, cached
+				op.QRels = []RelT{{C: relC, T: tA}}
+				return op
+			}, func() *Op {
+				op := mk(KStepQuery)
+				op.Slot, op.N = 0, 1
+				return op
+			}, func() *Op {
+				op := mk(KOpenQuery)
+				op.Slot, op.SF, op.Cached = 1, len(g.M.Filters)-1, cached
+				op.QRels = []RelT{{C: relC, T: tB}}
+				return op
+			}, func() *Op {
+				if !g.M.Queries[0].Open {
+					return nil
+				}
+				op := mk(KStepQuery)
+				op.Slot, op.N = 0, 1000
+				return op
+			}, func() *Op {
+				if len(g.M.Queries) < 2 || !g.M.Queries[1].Open {
+					return nil
+				}
+				op := mk(KStepQuery)
+				op.Slot, op.N = 1, 1000
+				return op
+			}, func() *Op {
+				if cached && g.M.Filters[len(g.M.Filters)-1].Registered {
+					op := mk(KUnregFilter)
+					op.SF = len(g.M.Filters) - 1
+					return op
+				}
+				return nil
+			})
+		}
+	}
 	if tp.NewObs != nil {
 		s = append(s, func() *Op {
 			// unregister the typed observers again
